@@ -576,8 +576,9 @@ def abstract(recs, pairs):
 
 # ------------------------------------------------------------------ spin builds
 
-def _sh(cmd, cwd, timeout=1800):
-    p = subprocess.run(cmd, cwd=cwd, capture_output=True, text=True, timeout=timeout)
+def _sh(cmd, cwd, timeout=3600):
+    env = dict(os.environ, TMPDIR=cwd)  # gcc temporaries stay in the tmpfs build directory
+    p = subprocess.run(cmd, cwd=cwd, capture_output=True, text=True, timeout=timeout, env=env)
     return p.returncode, p.stdout + p.stderr
 
 
@@ -606,7 +607,8 @@ def ensure_build(defs, extra_files=None, tag="b"):
     rc, out = _sh(["spin"] + dflags + ["-a", "ebd.pml"], tmp)
     if rc != 0 or not os.path.exists(os.path.join(tmp, "pan.c")):
         raise RuntimeError("spin -a failed:\n" + out[-3000:])
-    rc, out = _sh(["gcc", "-O1", "-w", "-DNOCLAIM", "-DVECTORSZ=2048", "-o", "pan", "pan.c"], tmp)
+    opt = "-O0" if tag == "obs" else "-O1"  # constrained searches are tiny; compile time dominates
+    rc, out = _sh(["gcc", opt, "-w", "-DNOCLAIM", "-DVECTORSZ=2048", "-o", "pan", "pan.c"], tmp)
     if rc != 0:
         raise RuntimeError("gcc pan.c failed:\n" + out[-3000:])
     with open(os.path.join(tmp, "DEFS"), "w") as f:
